@@ -1,4 +1,8 @@
 -- Root of the library: everything that must build.
 import RjModel.Model.Parse
 import RjModel.Generated.Constants
+import RjModel.Props.C06
+import RjModel.Props.C11
 import RjModel.Props.C13
+import RjModel.Props.C16
+import RjModel.Model.ParseSettings
